@@ -14,6 +14,7 @@ fam = {
  "flb2": (cat(rep(alt(cap(lit('a')), NS), 0, 1, greedy=False), bref(0), {"Class": {"items": [{"Range": ["a", "c"]}], "neg": True, "sub": None}}), ["ad"]),
  "flb3": (cat(rep(ncap(alt(lit('x'), cap(lit('x')))), 0, 1, greedy=False), lit('a'), bref(0), lit('a')), ["xaxa"]),
  "flb4": (cat(lit('x'), rep(ncap(alt(cap(lit('a')), lit('a'))), 0, 1), bref(0), rep(lit('b'), 0, None)), ["xab"]),
+ "flb6": (cat(ncap(alt(lit('a'), rep(lit('a'), 0, 0, greedy=False, brace=True))), rep(ncap(alt(cap(lit('A')), lit('a'))), 0, 1, greedy=False), cap(cat(bref(0), lit('b')))), ["AAbabB"]),
  # KF-captures-in-loop
  "cil1": (cat(rep(ncap(alt(lit('A'), cap(lit('a')))), 1, None), cap(lit('A')), bref(40000)), ["aAAAa"]),
  "cil2": (cat(rep(ncap(alt(lit('b'), cap("Dot"))), 0, None), lit('a')), ["cba"]),
@@ -35,7 +36,7 @@ def wrap(p, a):
     if p == "C08": return {"ast": a, "rep": "[$0]"}
 for name, (node, inputs) in fam.items():
     for p in ["C01", "C02", "C03", "C12", "C19", "C11", "C08"]:
-        json.dump({"property": p, "case": wrap(p, ast(node, "", inputs))}, open('/tmp/kf_w.json', 'w'))
+        json.dump({"property": p, "case": wrap(p, ast(node, "i" if name == "flb6" else "", inputs))}, open('/tmp/kf_w.json', 'w'))
         r = subprocess.run(["/verif/harness/target/release/verif", "replay", "/tmp/kf_w.json"], capture_output=True, text=True)
         out = r.stdout + r.stderr
         sub = [l.strip()[:170] for l in out.splitlines() if l.strip().startswith('sub=')]
